@@ -213,7 +213,11 @@ pub fn c11(d: &Digest, s: usize, out: &mut Vec<Violation>) {
         for e in &d.ev[xret..] {
             if let K::EffB { eff } | K::EffE { eff, .. } = &e.k {
                 if store_effs.contains(eff) {
-                    let via_channel = sd.pool_chan.map(|pc| d.ev.iter().any(|x| matches!(&x.k, K::ChSend { chan, .. } if *chan == pc))).unwrap_or(false);
+                    // finding F6 is a race between the pool's join and a worker that has taken a job
+                    // from the pool's job channel: the late effect's own worker must have got it there
+                    // (a job handed to a freshly spawned worker is counted busy from the start)
+                    let begun = d.ev.iter().position(|x| matches!(&x.k, K::EffB { eff: b } if b == eff)).unwrap_or(0);
+                    let via_channel = sd.pool_chan.map(|pc| d.ev[..begun].iter().any(|x| x.tid == e.tid && matches!(&x.k, K::ChRecv { chan, .. } if *chan == pc))).unwrap_or(false);
                     let msg = format!("store {s}: effect {eff} was running after stop() had returned without timing out");
                     if via_channel {
                         vk(out, "C11", "effect-after-stop", msg, "F6");
